@@ -2,6 +2,8 @@
 # Regression of the machinery itself, on a snapshot of /verif (so that the live tree can be edited meanwhile):
 #   1. every seeded defect under /verif/seeded must still be flagged by its target property's check
 #   2. every behaviour-preserving refactoring under /verif/refactors must be flagged by no check
+#   3. every defect planted on a refactored tree (refactors/combos) must be flagged by the check named for it
+# usage: tools/regress.sh [seeds|refactors|combos]
 # Uses the scratch worktree /tmp/sv (never /repo itself).
 SNAP=${SNAP:-/tmp/verif_snap}
 rm -rf $SNAP; mkdir -p $SNAP
@@ -10,7 +12,7 @@ mkdir -p $SNAP/evidence
 [ -d /tmp/sv ] || git -C /repo worktree add -q /tmp/sv HEAD
 cd /tmp/sv && git checkout -q --detach $(git -C /repo rev-parse HEAD) && git checkout -- . && git clean -fdq src
 ALL="C01 C02 C03 C04 C05 C06 C07 C08 C09 C10 C11 C12 C13 C14 C15 C16 C17 C18 C19"
-if [ "$1" != "refactors" ]; then
+if [ "$1" != "refactors" ] && [ "$1" != "combos" ]; then
 for d in $SNAP/seeded/*/; do
   id=$(basename $d); prop=${id%%-*}
   cd /tmp/sv && git apply $d/patch.diff 2>/dev/null || { echo "SEED $id: patch does not apply"; continue; }
@@ -33,7 +35,7 @@ for d in $SNAP/seeded/*/; do
   cd /tmp/sv && git checkout -- . && git clean -fdq src
 done
 fi
-if [ "$1" != "seeds" ]; then
+if [ "$1" != "seeds" ] && [ "$1" != "combos" ]; then
 for p in $SNAP/refactors/*.patch; do
   [ -f $p ] || continue
   n=$(basename $p .patch)
@@ -47,5 +49,20 @@ for p in $SNAP/refactors/*.patch; do
   echo "REFACTOR $n: ${fl:-clean}"
   cd /tmp/sv && git checkout -- . && git clean -fdq src
 done
+fi
+if [ "$1" != "seeds" ] && [ "$1" != "refactors" ] || [ "$1" = "combos" ]; then
+# 3. a defect planted *on top of* a refactoring (refactors/combos): the check named in combos.json must still flag it -
+#    the robustness gained on refactored code must not be blindness
+python3 - "$SNAP" <<'PY'
+import json, subprocess, sys, os
+snap = sys.argv[1]
+for c in json.load(open(os.path.join(snap, "refactors", "combos", "combos.json"))):
+    p = os.path.join(snap, "refactors", "combos", c["patch"])
+    subprocess.run("git checkout -- . && git clean -fdq src && git apply %s" % p, shell=True, cwd="/tmp/sv")
+    r = subprocess.run("VERIF_REPO=/tmp/sv VERIF_EVIDENCE_DIR=/tmp/sv_evidence ./check %s quick" % c["expected_check"], shell=True, cwd=snap, text=True, capture_output=True)
+    rules = sorted({l.split(":")[0].replace("  rule ", "") for l in r.stdout.splitlines() if l.startswith("  rule")})
+    print("COMBO %s on %s: %s" % (c["id"], c["refactoring"], ("detected by %s %s" % (c["expected_check"], rules)) if r.returncode != 0 else "MISSED by %s" % c["expected_check"]))
+subprocess.run("git checkout -- . && git clean -fdq src", shell=True, cwd="/tmp/sv")
+PY
 fi
 echo DONE
